@@ -386,6 +386,160 @@ theorem cluster_ip_frontend_exact' (s : Syncer) (wf : WFPrev s.prevSvc s.nextId)
     (calls_ids_nodup s wf st hint hnames ⟨hnd, fun i hi => (hrange i hi).1⟩)
   exact ⟨v, h1, h2, h3, h5⟩
 
+/-! ### Restart: the adopted bookkeeping is well formed; exactness for every good syncer -/
+
+/-- **restart**: the bookkeeping a fresh syncer adopts from whatever is in the maps is well formed —
+IDs found twice under different services are not adopted (`duplicateIDs`), `nextSvcID` is above
+every matched ID. -/
+theorem wfPrev_startup (s : Syncer) (hs : s.prevSvc = []) (st : KState) :
+    WFPrev (startupBuildPrev s st).prevSvc (startupBuildPrev s st).nextId := by
+  unfold startupBuildPrev
+  simp only [hs]
+  generalize hfes : matchedFrontends s.npIPs st.svcs s.dp.F = fes
+  have hmax := foldl_max_ge fes s.nextId
+  constructor
+  · intro sk info _ hg
+    rcases adopt_get _ _ _ sk info hg with h | ⟨fe, hfe, _, hid⟩
+    · simp [AMap.get] at h
+    · rw [hid]; exact hmax.2 fe (List.mem_filter.1 hfe).1
+  · intro sk1 sk2 i1 i2 ho1 ho2 h1 h2 hne hid
+    rcases adopt_get _ _ _ sk1 i1 h1 with h | ⟨fe1, hfe1, hk1, hid1⟩
+    · simp [AMap.get] at h
+    rcases adopt_get _ _ _ sk2 i2 h2 with h | ⟨fe2, hfe2, hk2, hid2⟩
+    · simp [AMap.get] at h
+    obtain ⟨hm1, hnd1⟩ := List.mem_filter.1 hfe1
+    obtain ⟨hm2, _⟩ := List.mem_filter.1 hfe2
+    -- owner keys adopted at start-up are cluster-IP keys: different keys = different services
+    have hs : fe1.1.sname ≠ fe2.1.sname := by
+      intro hsn
+      apply hne
+      rw [← hk1, ← hk2]
+      have e1 : fe1.1.extra = .prim := by
+        rcases ho1 with h | ⟨n, h⟩
+        · rw [← hk1] at h; exact h
+        · rw [← hk1] at h; exact absurd h (matched_extra (hfes ▸ hm1) n)
+      have e2 : fe2.1.extra = .prim := by
+        rcases ho2 with h | ⟨n, h⟩
+        · rw [← hk2] at h; exact h
+        · rw [← hk2] at h; exact absurd h (matched_extra (hfes ▸ hm2) n)
+      cases hh1 : fe1.1 with | mk s1 x1 => cases hh2 : fe2.1 with | mk s2 x2 =>
+        rw [hh1] at e1 hsn; rw [hh2] at e2 hsn
+        simp only at e1 e2 hsn
+        rw [e1, e2, hsn]
+    have hdup : isDupId fes fe1.2.id = true := by
+      unfold isDupId
+      rw [List.any_eq_true]
+      refine ⟨fe1, hm1, ?_⟩
+      simp only [beq_self_eq_true, Bool.true_and, List.any_eq_true]
+      refine ⟨fe2, hm2, ?_⟩
+      simp only [Bool.and_eq_true, beq_iff_eq, bne_iff_ne, ne_eq]
+      exact ⟨by rw [← hid2, ← hid, hid1], hs⟩
+    simp [hdup] at hnd1
+
+/-- a syncer whose ID bookkeeping can be relied on: freshly created (also over non-empty maps), or synced
+with a well-formed `newSvcMap`. -/
+def GoodSyncer (s : Syncer) : Prop :=
+  (s.synced = false ∧ s.prevSvc = []) ∨ (s.synced = true ∧ WFPrev s.newSvc s.nextId)
+
+theorem goodSyncer_new (np : List Nat) (rts : AMap Nat Route) (dp : DP) : GoodSyncer (Syncer.new np rts dp) :=
+  Or.inl ⟨rfl, rfl⟩
+
+/-- the bookkeeping the desired maps are built from is well formed — at start-up too. -/
+theorem prepared_wf (s : Syncer) (hg : GoodSyncer s) (st : KState) :
+    WFPrev (prepared s st).prevSvc (prepared s st).nextId := by
+  unfold prepared
+  rcases hg with ⟨h1, h2⟩ | ⟨h1, h2⟩
+  · simp only [h1, Bool.false_eq_true, if_false]; exact wfPrev_startup s h2 st
+  · simp only [h1, if_true]; exact h2
+
+/-- `Apply` keeps the syncer good, unless it is a FIRST sync that fails (then `prevSvcMap` is kept and
+`startupBuildPrev` runs again on top of it — not covered). -/
+theorem apply_good (s : Syncer) (hg : GoodSyncer s) (st : KState) (hint : AMap SvcKey Nat) (fp : Nat)
+    (hnames : (st.svcs.map (·.1)).Nodup) (hh : (s.apply st hint fp).hintOk = true)
+    (hok : s.synced = true ∨ (s.apply st hint fp).ok = true) : GoodSyncer (s.apply st hint fp).syncer := by
+  have wf := prepared_wf s hg st
+  have hsy : (s.apply st hint fp).syncer.synced = true := by
+    unfold Syncer.apply at hok ⊢
+    rcases hok with h | h
+    · simp [h]
+    · split at h <;> simp_all
+  refine Or.inr ⟨hsy, ?_⟩
+  have e1 : (s.apply st hint fp).syncer.newSvc = (buildDesired (prepared s st) st hint).newSvc := by
+    unfold Syncer.apply prepared; split <;> rfl
+  have e2 : (s.apply st hint fp).syncer.nextId = (buildDesired (prepared s st) st hint).nextId := by
+    unfold Syncer.apply prepared; split <;> rfl
+  have e3 : (s.apply st hint fp).hintOk = freshOk (prepared s st).nextId (buildDesired (prepared s st) st hint).fresh := by
+    unfold Syncer.apply prepared; split <;> rfl
+  rw [e1, e2]
+  exact wfPrev_next (prepared s st) wf st hint hnames (by rw [← e3]; exact hh)
+
+/-- **Exactness with no ID hypothesis at all**, for every good syncer (fresh after a restart over any map
+contents, or in steady state): the cluster-IP frontend of every service lists exactly its ready
+endpoints, local ones first, in the kernel maps after a completed sync. -/
+theorem synced_cluster_ip_frontend_exact' (s : Syncer) (hg : GoodSyncer s) (st : KState) (hint : AMap SvcKey Nat) (fp : Nat)
+    (hnames : (st.svcs.map (·.1)).Nodup) (hh : (s.apply st hint fp).hintOk = true)
+    (hok : (s.apply st hint fp).ok = true) (sname : String) (svc : Svc) (hm : (sname, svc) ∈ st.svcs)
+    (hF : ((buildDesired (prepared s st) st hint).fwrites.map (·.1)).Nodup) :
+    ∃ v, (s.apply st hint fp).syncer.dp.F.get (zeroKey svc) = some v ∧
+      v.count = (readyOrdered (epsFor (prepared s st) st sname svc)).length ∧
+      v.lcl = localReady (epsFor (prepared s st) st sname svc) ∧
+      ∀ i (hi : i < (readyOrdered (epsFor (prepared s st) st sname svc)).length),
+        (s.apply st hint fp).syncer.dp.B.get ⟨v.id, i⟩ =
+          some ⟨(readyOrdered (epsFor (prepared s st) st sname svc))[i].ip,
+                (readyOrdered (epsFor (prepared s st) st sname svc))[i].port⟩ := by
+  have e3 : (s.apply st hint fp).hintOk = freshOk (prepared s st).nextId (buildDesired (prepared s st) st hint).fresh := by
+    unfold Syncer.apply prepared; split <;> rfl
+  obtain ⟨hnd, hrange⟩ := freshGood_of_freshOk (b := buildDesired (prepared s st) st hint) (by rw [← e3]; exact hh)
+  exact synced_cluster_ip_frontend_exact s st hint fp hok sname svc hm hF
+    (calls_ids_nodup (prepared s st) (prepared_wf s hg st) st hint hnames ⟨hnd, fun i hi => (hrange i hi).1⟩)
+
+/-! ### Traffic-policy flag of the cluster-IP frontend -/
+
+/-- the flags `updateService` + `writeSvc` put on a cluster-IP frontend: internal traffic policy
+Local → `NATFlgInternalLocal` (the kernel then uses only the first `local count` backends), exclude
+annotation → `NATFlgExclude`. -/
+def primFlags (svc : Svc) : Nat :=
+  if svc.exclude then (if svc.intLocal then flgInternalLocal else 0) ||| flgExclude
+  else (if svc.intLocal then flgInternalLocal else 0)
+
+theorem applySvc_flag_record (prevSvc : AMap SvcKey SvcInfo) (hint : AMap SvcKey Nat) (b : Bld) (skey : SvcKey) (svc : Svc)
+    (eps : List Ep) :
+    ∃ v, (zeroKey svc, v) ∈ (applySvc prevSvc hint b skey svc eps).fwrites ∧ v.flags = primFlags svc := by
+  have key : ∀ (b : Bld) id, ∃ v, (zeroKey svc, v) ∈ (applySvcWith b skey svc id eps).fwrites ∧ v.flags = primFlags svc := by
+    intro b id
+    unfold C42.applySvcWith C42.updateService C42.writeSvc primFlags
+    cases skey.extra <;> exact ⟨_, List.mem_cons_self .., rfl⟩
+  unfold C42.applySvc
+  split
+  · exact key _ _
+  · exact key _ _
+
+/-- **local-only where the (internal) traffic policy requires**: the cluster-IP frontend of a service
+with internal traffic policy Local carries `NATFlgInternalLocal` (and no such flag otherwise), next to
+the local count proved in `cluster_ip_frontend_exact`. -/
+theorem cluster_ip_frontend_flags (s : Syncer) (st : KState) (hint : AMap SvcKey Nat) (sname : String) (svc : Svc)
+    (hm : (sname, svc) ∈ st.svcs) (hF : ((buildDesired s st hint).fwrites.map (·.1)).Nodup) :
+    ∃ v, (buildDesired s st hint).des.F.get (zeroKey svc) = some v ∧ v.flags = primFlags svc := by
+  have key : ∀ (l : List (String × Svc)) (b0 : Bld), (sname, svc) ∈ l →
+      ∃ v, (zeroKey svc, v) ∈ (l.foldl (fun b p => applyService s st hint b p.1 p.2) b0).fwrites ∧ v.flags = primFlags svc := by
+    intro l
+    induction l with
+    | nil => intro b0 h; simp at h
+    | cons p rest ih =>
+      intro b0 hm'
+      simp only [List.foldl_cons]
+      rcases List.mem_cons.1 hm' with h | h
+      · subst h
+        obtain ⟨v, h1, h2⟩ := applySvc_flag_record s.prevSvc hint b0 ⟨sname, .prim⟩ svc (epsFor s st sname svc)
+        refine ⟨v, ?_, h2⟩
+        apply foldl_mono_w _ (fun w b p h => (memw_pres w).applyService h s st hint p.1 p.2)
+        unfold applyService
+        exact (memw_pres _).applyRest h1 _ _ _ _ _
+      · exact ih _ h
+  obtain ⟨v, hw, hfl⟩ := key st.svcs _ hm
+  have hf : FOK (buildDesired s st hint) := buildDesired_pres FOK_pres s st hint (fun _ kv h => by simp at h)
+  exact ⟨v, hf hF _ (by unfold buildDesired; exact hw), hfl⟩
+
 /-! ### Non-vacuity -/
 
 /-- a non-trivial consistent state: one frontend with two backends, one black-hole frontend. -/
@@ -444,6 +598,11 @@ example : ((buildDesired (Syncer.new [7] [] ⟨[], []⟩) (exState [exEp 100 fal
 
 /-- the derived keys of the example service: its external IP and its node port on the local address. -/
 example : derivedKeys (Syncer.new [7] [] ⟨[], []⟩) exSvc = [⟨20, 80, 6, 0, 0⟩, ⟨7, 30000, 6, 0, 0⟩] := by decide
+
+example : primFlags { exSvc with intLocal := true } = 2 ∧ primFlags exSvc = 0 := by decide
+
+/-- a restarted syncer over arbitrary map contents is good. -/
+example : GoodSyncer (Syncer.new [7] [] exDP) := goodSyncer_new _ _ _
 
 /-- a reachable mid-update state (one write of phase 1 done). -/
 example : ∃ σ, Reach ⟨[], []⟩ exDP σ ∧ σ.dp.F.length = 1 :=
